@@ -467,8 +467,13 @@ def brentq(f, a, b, args=(), xtol=_xtol,
                     # extrapolate
                     dpre = (fpre - fcur) / (xpre - xcur)
                     dblk = (fblk - fcur) / (xblk - xcur)
-                    stry = -fcur * (fblk * dblk - fpre * dpre) / \
-                        (dblk * dpre * (fblk - fpre))
+                    den = dblk * dpre * (fblk - fpre)
+                    if den == 0:
+                        # Underflow for tiny function values: force the
+                        # bisection branch below instead of dividing by 0
+                        stry = np.inf
+                    else:
+                        stry = -fcur * (fblk * dblk - fpre * dpre) / den
 
                 if (2 * abs(stry) < min(abs(spre), 3 * abs(sbis) - delta)):
                     # good short step
